@@ -14,19 +14,19 @@ CHECKS = {
          "Oracle observes MarshalBinary/UnmarshalBinary of the real code on values on both sides of every wire-width boundary and on malformed bytes; a successful encode must be representable, valid and lossless.",
          "validation rules are those listed in the property's anchors, re-stated independently in h/checks/c02.go", "3/C02"),
  "C04": ("red-zone sanitizer for the decoders: guard page (mmap+PROT_NONE, SetPanicOnFault), canary capacity, allocation meter, differential against the reference decoder; thorough adds -race/checkptr",
-         "Each hostile input is decoded from three memory placements by every decoder and by Request.Fields; panics, faults, capacity-dependent results, over-cap bodies, invalid accepted values and allocation above 16*len+64KiB are violations.",
+         "Each hostile input is decoded from three memory placements by every decoder, by Request.Fields and (as a reply stream) by Client.Send; panics, faults, capacity-dependent results, over-cap bodies, invalid accepted values and allocation above 16*len+64KiB are violations.",
          "reads before the start of a slice are impossible in safe Go; allocation measured with runtime.ReadMemStats in a single-goroutine worker", "3/C04"),
  "C03": ("reference-model runtime monitor at the socket (raw server/client bytes vs header||(body XOR independent MD5 pad), cleartext seen by handlers and returned by Client.Send)",
-         "The real server loop and Client.Send run over a scripted in-memory connection; every written byte and every delivered cleartext is compared with the reference pad for secrets/sessions/versions/sequence numbers/body lengths listed in the evidence; also the server's own bad-secret error packets and whatever is written after an injected write fault.",
+         "The real server loop and Client.Send run over a scripted in-memory connection; every written byte and every delivered cleartext is compared with the reference pad for secrets/sessions/versions/sequence numbers/body lengths listed in the evidence; also the server's own bad-secret error packets, whatever is written after an injected write fault, request packets put together in five ways (stale length fields) and replies sent through Response.Write.",
          "trusts crypto/md5 and h/rfc8907.Pad; Client driven through the verif-only constructor NewClientFromConn", "3/C03"),
  "C05": ("scripted-delivery runtime monitor (generated TCP segmentation schedules against the real reader; wrapping Handler + connection event log)",
-         "Streams of packets are cut by 17 segmentation schedules and fed to the real server loop / Client.Send; the handler must see exactly the packets sent and the bodies it was handed (kept by reference) must stay intact while later packets are read; truncation, stall, pause-inside-packet and oversize-header scenarios are judged on the Read/Close event log (virtual time) and a heap meter.",
-         "simnet delivers at most one chunk per Read; oversize heap bound 1 MiB measured with ReadMemStats", "3/C05"),
+         "Streams of packets are cut by 17 segmentation schedules and fed to the real server loop / Client.Send; the handler must see exactly the packets sent and the bodies it was handed (kept by reference) must stay intact while later packets are read; truncation, stall, pause-inside-packet and oversize-header scenarios (server and client as receiver) are judged on the Read/Close event log (virtual time) and a heap meter.",
+         "simnet delivers at most one chunk per Read; oversize allocation bound 64 KiB (minimum over up to three attempts) measured with ReadMemStats", "3/C05"),
  "C06": ("raw-header runtime monitor in lock-step (reply bytes re-framed independently and compared octet by octet with the mirrored header and reference pad)",
          "All 196608 request headers (3 types x 2 minor x 256 flag octets x 128 odd sequence numbers) and every reply kind/size are exchanged with the real server loop; each reply's raw header, length field and obfuscation are checked; replies through Response.Write, fallback replies after an unsendable first reply, full 1..255 walks, and every reply of the reference server's handler paths go through the same oracle.",
          "scope: Reply/ReplyWithContext; a RESTART reply to request 255 is unjudged (statement ambiguous)", "3/C06"),
  "C08": ("model-based runtime monitor over connection histories (executable session/sequence model vs handler identity and close events of the real loop)",
-         "All histories of length <= 4 over {1,2,3,5,253,255}x{A,B} plus seeded random longer histories are played in lock-step; every dispatch (which handler: initial or which continuation) and every rejection (no handler, closed) must match the model.",
+         "All histories of length <= 4 over {1,2,3,5,253,255}x{A,B} plus seeded random longer histories are played in lock-step; every dispatch (which handler: initial or which continuation) and every rejection (no handler, closed) must match the model; on the reference server a final status must register no continuation and a finished session's id must start again at the initial handler.",
          "RESTART replies excluded from the scripts; handler identity observed through the wrapping Handler", "3/C08"),
  "C17": ("event-order runtime monitor over the totally ordered simnet log with virtual time; cancellation injected at generated moments",
          "Shutdown scenarios with connections in every state and pacing scenarios are run against the real Serve loop; the oracle checks that nothing happens after Serve returned, that listener/connections/handlers are finished by then, that Serve does not return early, that a deadline is armed at every Read and that stalled connections are closed without a handler call.",
@@ -35,19 +35,19 @@ CHECKS = {
          "Requests are classified must-flag / must-not-flag / unjudged by h/rfc8907.Decode over all layouts of the type; the real loop must answer must-flag with exactly one ERROR packet of the matching type, no handler, close, and must dispatch must-not-flag requests.",
          "error packet judged only on count, type, reply layout and ERROR status", "3/C19"),
  "C20": ("conservation runtime monitor over the default prometheus registry (pre-burst vs quiescent values, non-negativity of every sample)",
-         "Bursts of connection histories of 13 kinds (completed, abandoned, rejected, refused, shutdown) are run sequentially and concurrently against one server per burst; gauges are sampled throughout and compared at quiescence.",
+         "Bursts of connection histories of 19 kinds (completed, abandoned, rejected, refused, shutdown, top of the number space, reused ids) are run sequentially and concurrently against one server per burst; gauges are sampled throughout and compared at quiescence.",
          "gauges are process-global: one server per burst, one process per batch", "3/C20"),
  "C07": ("counting runtime monitor in lock-step on the reference server (packets written between consecutive blocking reads, handler entries at a wrapping Handler, header/sequence/key-mismatch model)",
-         "Generated multiplexed sessions over every handler path and user kind are played against the reference server; each accepted request must produce exactly one reply packet (none for 255) and keep the connection reading; each rejected one no handler, at most one packet and a close. Component pass drives stringy and bcrypt handlers directly.",
+         "Generated multiplexed sessions over every handler path and user kind are played against the reference server; each accepted request must produce exactly one reply packet (none for 255) and keep the connection reading; each rejected one no handler, at most one packet and a close. Finished session ids are reused; a quarter of the configurations serve from a SPAN scope whose span host is down. Component pass drives stringy and bcrypt handlers directly.",
          "open sessions are read from the wrapping Response (continuation registered) at the API boundary; unjudged key-mismatch class may go either way but completely", "3/C07"),
  "C14": ("crash monitor: hostile generated streams against the reference server in worker processes, panic-recording Handler wrapper, parent-side death localisation, control connections before/after; thorough adds -race/checkptr",
-         "Random bytes, mutated packets, every body in every handler state, truncated/oversize packets, odd-user recipes and proxy junk are sent over 1-64 connections under rich and odd configurations; any recorded or process-level panic and any wrong control answer is a violation.",
-         "streams bounded to 64 KiB; SPAN/DNS/syslog components are outside the reference wiring", "3/C14"),
+         "Random bytes, mutated packets, every body in every handler state, truncated/oversize packets, odd-user recipes, sequence games on an open session and proxy junk are sent over 1-64 connections (from the intact and from the odd scopes) under nine rich and odd configuration variants incl. SPAN scopes; any recorded or process-level panic and any wrong control answer is a violation.",
+         "streams bounded to 64 KiB; DNS provider and syslog accounter are not exercised; the SPAN handler type is registered and exercised with a span host that is down only", "3/C14"),
  "C12": ("event-log checker over accounting sink records and reply writes sharing one logical clock (exactly-once, order, byte-for-byte fidelity via unique task ids)",
-         "Accounting requests with hostile characters, every flag octet and 0..255 arguments are sent on up to 16 concurrent connections to the reference server; for every SUCCESS reply exactly one earlier sink record with the request's task id must decode to exactly the request; listed ERROR cases must be answered ERROR. Half of the batches render through a real log.Logger.",
+         "Accounting requests with hostile characters, every flag octet and 0..255 arguments are sent on up to 16 concurrent connections to the reference server; for every SUCCESS reply exactly one earlier sink record with the request's task id must decode to exactly the request; listed ERROR cases must be answered ERROR. Half of the batches render through a real log.Logger, a quarter serve from a SPAN scope whose span host is down.",
          "record format = JSON of the decoded request as the reference accounter emits it; syslog accounter not exercised (needs a syslog socket)", "3/C12"),
  "C18": ("taint-token runtime monitor over an injected recording logger plus the stock logger's debug output",
-         "Every login carries a unique random password token and the scope a unique secret token; all logger calls (messages, Record maps minus caller-obscured keys, retained context fields) and the stock Logger's level-30 output are searched for the tokens in plain/hex/base64 form across all START combinations, ASCII/PAP flows, aborts, error paths and wrong-key connections.",
+         "Every login carries a unique random password token and the scope a unique secret token; all logger calls (messages, Record maps minus caller-obscured keys, retained context fields) and the stock Logger's level-30 output are searched for the tokens in plain/hex/base64 form across all START combinations, ASCII/PAP flows, aborts, empty answers, error paths, slow keychains and wrong-key connections.",
          "stock logger at level 30 is a superset of levels 10/20", "3/C18"),
  "C10": ("reference-evaluator runtime monitor for authentication (independent evaluation of configuration + session transcript; soundness on every reply, completeness on well-formed logins)",
          "Generated configurations (scopes, users, groups, credential kinds, duplicates) and authentication histories are played against the reference server; a PASS must be justified by a (user, password) pair the session itself carried that verifies in the connection's scope; well-formed ASCII/PAP logins with the right password must end in PASS.",
@@ -56,17 +56,17 @@ CHECKS = {
          "Generated policies (regex grammar incl. partial anchors, alternations, (?m), invalid patterns; user/group layering; services with conditions and optional values) and requests aimed at the policies' own patterns are sent to the reference server; grants must be justified by a permit as first applying rule under some reading; canonical session requests must return exactly the expected value set and add/replace status.",
          "regexp trusted; command path judged in the grant direction only; non-canonical session requests unjudged", "3/C11"),
  "C09": ("differential transcript runtime monitor (each session's replies when multiplexed / concurrent vs when run alone; byte-for-byte)",
-         "Sets of 2-8 session scripts are run multiplexed under generated interleavings (all interleavings of 2 scripts x <= 3 packets enumerated), on concurrent connections with identical session ids, and alone; every transcript must equal the solo transcript. Thorough adds -race.",
+         "Sets of 2-8 session scripts are run multiplexed under generated interleavings (all interleavings of 2 scripts x <= 3 packets enumerated), on concurrent connections with identical session ids from two scopes, and alone; every transcript must equal the solo transcript. Thorough adds -race.",
          "replies are deterministic functions of the session; coverage floor counts interleavings with two sessions open at once", "3/C09"),
  "C13": ("reference-evaluator runtime monitor for admission (netip-based evaluator vs Loader.Get and vs the full server's connection event log and AAA outcomes)",
-         "Generated ordered scopes with overlapping IPv4/IPv6 prefixes, deny/allow lists and scoped users; boundary addresses of every prefix in 4-byte, mapped and IPv6 encodings; refused connections must show only RemoteAddr+Close, served ones must work under the expected scope's key and user set only.",
+         "Generated ordered scopes with overlapping IPv4/IPv6 prefixes, deny/allow lists and scoped users; boundary addresses of every prefix in 4-byte, mapped and IPv6 encodings; refused connections must show only RemoteAddr+Close, served ones must work under the expected scope's key and user set only; lookups issued at the same instant from 8 goroutines must each be bound by their own address.",
          "IPv4(-mapped) vs ::/0-like prefixes unjudged; valid CIDRs only", "3/C13"),
  "C16": ("differential runtime monitor over load histories (long-lived loader object vs fresh loader per document; snapshots of published values; end-to-end lookups/AAA vs fresh server)",
          "Histories of 2-6 YAML/JSON documents (edits dropping keys, shrinking/reordering lists, removing per-user fields; invalid documents interleaved) are fed to one loader object; outcome and published value must equal a fresh loader's, earlier published values must not change, failed loads publish nothing; sampled histories are replayed through Loader+server and compared with a fresh server.",
-         "nil == empty; fsnotify watcher not driven (it calls Load on the same object)", "3/C16"),
+         "nil == empty; every third history goes through Load(path) of one file with a pinned modification time; the fsnotify watcher itself is driven in the thorough tier only", "3/C16"),
  "C15": ("Go race detector over the whole reference server under generated concurrent load with reloads and shutdown (reports de-duplicated by owner-frame pair) + porcupine linearizability check of lookup/reload histories + re-hashing of published configurations",
-         "Workers built with -race run 8-48 client goroutines (all AAA kinds, multiplexed sessions, shared users), a reloader through the real yaml/json loaders, lookup probers and shutdowns, plus a slice over real loopback TCP; any race report owned by a tacquito frame is a violation. Lookup/reload histories with generation-encoding deny/allow lists and keys are checked with porcupine against a one-register model (a mixture is illegal in every state); every published configuration is deep-hashed and re-checked after later loads.",
-         "races only among executed accesses; write completion taken at the loader's own log line; harness-only race reports make the run inconclusive", "3/C15"),
+         "Workers built with -race run 8-48 client goroutines (all AAA kinds, multiplexed sessions, shared users), a reloader through the real yaml/json loaders, lookup probers and shutdowns, plus a slice over real loopback TCP; any race report owned by a tacquito frame is a violation. Lookup/reload histories with generation-encoding deny/allow lists and keys are checked with porcupine against a one-register model (a mixture is illegal in every state; generations that build no provider must refuse everything); every published configuration is deep-hashed and re-checked after later loads.",
+         "races only among executed accesses; write completion taken at a barrier (configuration consumed, then one lookup through the loader's loop); harness-only race reports make the run inconclusive", "3/C15"),
 }
 
 NA_REASON = "check not built yet in this round (work in progress; see DESIGN.md section 3 for the planned monitor)"
